@@ -1,4 +1,5 @@
 import struct
+import asyncio
 import logging
 import typing
 from binascii import hexlify, unhexlify
@@ -854,8 +855,10 @@ class Transaction:
             if sign:
                 await tx.sign(funding_accounts)
 
-        except Exception as e:
-            log.exception('Failed to create transaction:')
+        except (Exception, asyncio.CancelledError) as e:
+            # a cancelled build (CancelledError is not an Exception) must hand its inputs back as well
+            if not isinstance(e, asyncio.CancelledError):
+                log.exception('Failed to create transaction:')
             await ledger.release_tx(tx)
             raise e
 
